@@ -9,6 +9,7 @@ pub mod c12;
 pub mod c16a;
 pub mod c17;
 pub mod c18;
+pub mod c19;
 pub mod c20;
 pub mod lc;
 
@@ -28,6 +29,7 @@ pub fn get(id: &str, tier: Tier) -> Option<PropertyDef> {
         "C06" => Some(lc::c06(tier)),
         "C07" => Some(lc::c07(tier)),
         "C08" => Some(lc::c08(tier)),
+        "C19" => Some(c19::def(tier)),
         "C20" => Some(c20::def(tier)),
         _ => None,
     }
